@@ -275,7 +275,7 @@ int padEncrypt(cipherInstance * cipher, keyInstance * key,
 	if (cipher == NULL || key == NULL || key->direction == DIR_DECRYPT) {
 		return BAD_CIPHER_STATE;
 	}
-	if (input == NULL || inputOctets <= 0) {
+	if (input == NULL || inputOctets < 0) {
 		return 0;				/* nothing to do */
 	}
 
